@@ -25,6 +25,9 @@ pub enum Expect {
     Real { value: f64, ty: Option<String> },
     Bool(bool),
     Str(Vec<char>),
+    /// a string with '$' escapes: the dsl may keep the text between the quotes verbatim or hold the
+    /// decoded characters (both readings keep every character; anything else is a wrong value)
+    StrRawOrDecoded(Vec<char>, Vec<char>),
     /// total nanoseconds
     Duration(i128),
     Date(i32, u8, u8),
@@ -545,21 +548,56 @@ fn gen_string(t: &mut Tape, g: &Gates) -> Lit {
     let wide = t.ratio(1, 3);
     let q = if wide { '"' } else { '\'' };
     let n = t.count(0, 12);
-    let mut chars = vec![];
+    let mut raw: Vec<char> = vec![];
+    let mut dec: Vec<char> = vec![];
+    let mut escapes = 0;
+    let with_escapes = t.ratio(1, 3) && g.want("STRING_DOLLAR_ESCAPES");
     for _ in 0..n {
+        if with_escapes && t.ratio(1, 3) {
+            // IEC 61131-3 table 5/6: $$ $L $N $P $R $T (either case), $hh (wide: $hhhh), and the
+            // escaped delimiter (gated: the lexer ends the token at the first quote)
+            escapes += 1;
+            match t.below(8) {
+                0 => {
+                    raw.extend(['$', '$']);
+                    dec.push('$');
+                }
+                1..=5 => {
+                    let (c, d) = *t.pick(&[('L', '\n'), ('N', '\n'), ('P', '\u{c}'), ('R', '\r'), ('T', '\t')]);
+                    let c = if t.flag() { c.to_ascii_lowercase() } else { c };
+                    raw.extend(['$', c]);
+                    dec.push(d);
+                }
+                6 => {
+                    let v = 0x20 + t.below(0x5f) as u32;
+                    let hex = if wide { format!("{:04X}", v) } else { format!("{:02X}", v) };
+                    raw.push('$');
+                    raw.extend(hex.chars());
+                    dec.push(char::from_u32(v).unwrap());
+                }
+                _ => {
+                    if g.want("STRING_ESCAPED_DELIMITER") {
+                        raw.extend(['$', q]);
+                        dec.push(q);
+                    } else {
+                        raw.push('y');
+                        dec.push('y');
+                    }
+                }
+            }
+            continue;
+        }
         let c = if t.ratio(1, 6) && g.want("STRING_NON_ASCII") {
             *t.pick(&['é', 'ß', 'Ä', '€', '漢', 'ñ', '😀'])
         } else {
             (32 + t.below(95) as u8) as char
         };
-        // escape semantics ('$') are not decided by this check; the other quote kind is an ordinary character
-        if c == q || c == '$' {
-            chars.push('x');
-        } else {
-            chars.push(c);
-        }
+        // the other quote kind is an ordinary character; a lone '$' is never written
+        let c = if c == q || c == '$' { 'x' } else { c };
+        raw.push(c);
+        dec.push(c);
     }
-    let body: String = chars.iter().collect();
+    let body: String = raw.iter().collect();
     let prefix = if t.ratio(1, 4) {
         if wide {
             "WSTRING#"
@@ -569,8 +607,15 @@ fn gen_string(t: &mut Tape, g: &Gates) -> Lit {
     } else {
         ""
     };
-    let class = format!("{}{}{}", if wide { "double-quoted" } else { "single-quoted" }, if prefix.is_empty() { "" } else { ".prefixed" }, if chars.iter().any(|c| !c.is_ascii()) { ".non-ascii" } else { "" });
-    Lit { text: format!("{}{}{}{}", prefix, q, body, q), expect: Expect::Str(chars), family: "string", class, embed: Embed::Init }
+    let class = format!(
+        "{}{}{}{}",
+        if wide { "double-quoted" } else { "single-quoted" },
+        if prefix.is_empty() { "" } else { ".prefixed" },
+        if raw.iter().any(|c| !c.is_ascii()) { ".non-ascii" } else { "" },
+        if escapes > 0 { ".dollar-escapes" } else { "" }
+    );
+    let expect = if escapes > 0 { Expect::StrRawOrDecoded(raw, dec) } else { Expect::Str(raw) };
+    Lit { text: format!("{}{}{}{}", prefix, q, body, q), expect, family: "string", class, embed: Embed::Init }
 }
 
 fn gen_address(t: &mut Tape, g: &Gates) -> Lit {
@@ -740,6 +785,7 @@ pub fn observe(lib: &Library, e: Embed) -> Result<Expect, String> {
 fn same(a: &Expect, b: &Expect) -> bool {
     match (a, b) {
         (Expect::Real { value: x, ty: tx }, Expect::Real { value: y, ty: ty_ }) => x.to_bits() == y.to_bits() && tx == ty_ || (*x == 0.0 && *y == 0.0 && tx == ty_),
+        (Expect::StrRawOrDecoded(raw, dec), Expect::Str(got)) => got == raw || got == dec,
         _ => a == b,
     }
 }
@@ -933,6 +979,7 @@ fn expect_from_json(v: &Value) -> Option<Expect> {
         "int" => Expect::Int { mag: v["mag"].as_str()?.parse().ok()?, neg: v["neg"].as_bool().unwrap_or(false), ty: v["ty"].as_str().map(String::from) },
         "real" => Expect::Real { value: v["value"].as_f64()?, ty: v["ty"].as_str().map(String::from) },
         "bool" => Expect::Bool(v["value"].as_bool()?),
+        "str_raw_or_decoded" => Expect::StrRawOrDecoded(v["raw"].as_str()?.chars().collect(), v["decoded"].as_str()?.chars().collect()),
         "tod" => Expect::Tod(v["h"].as_u64()? as u8, v["m"].as_u64()? as u8, v["s"].as_u64()? as u8, v["micro"].as_u64()? as u32),
         "address" => Expect::Address {
             loc: v["loc"].as_str()?.chars().next()?,
